@@ -10,6 +10,7 @@ from cxxheaderparser import preprocessor as PP
 from cxxheaderparser.options import ParserOptions
 from cxxheaderparser.simple import parse_file, parse_string
 
+TECHNIQUE = "Lean 4: specification theorems for the gcc/pcpp line-marker filters over every segmentation (keep exactly the main file's segments; exact quoted-name match); correspondence on synthetic and real preprocessor output; end-to-end include-graph oracle"
 LEAN_TARGET = "CxxModel.Props.C19"
 THEOREMS = ["Cxx.C19_gcc_filter_spec", "Cxx.C19_pcpp_filter_spec", "Cxx.C19_gcc_marker_exact", "Cxx.C19_pcpp_marker_exact",
             "Cxx.segFilter_spec"]
@@ -23,6 +24,7 @@ CARRIED_BY = {
     "main-file test is equality of the quoted name, whatever files are called": "theorems C19_gcc_marker_exact, C19_pcpp_marker_exact",
     "model filters = _gcc_filter/_pcpp_filter": "correspondence `ppfilter` on synthetic and real preprocessor outputs",
     "end to end with real pcpp / g++ (declarations, line numbers, retain_all_content, depfile)": "oracle `include_graphs` (not proof)",
+    "a preprocessor function carries nothing from one file to the next": "oracle `preprocessor_history` (not proof)",
 }
 ASSUMPTIONS = ["g++/pcpp output is marker-segmented (recorded assumption)", "cl.exe absent: MSVC filter exercised on synthetic MSVC-format output only"]
 MODEL_COVERAGE = "_gcc_filter, _pcpp_filter (PPFilter.lean); _msvc_filter by oracle only"
@@ -73,6 +75,65 @@ def reach(inc, main):
     return seen
 
 
+def history_oracle(ctx, rng, have_gcc):
+    """one preprocessor function used for a sequence of main files gives, for each, the result a fresh one gives:
+    nothing (macros, include-once sets, search paths) is carried from one file to the next"""
+    fails = []
+    n = ctx.budget(12, 300)
+    tmp = tempfile.mkdtemp(prefix="c19h")
+    cwd = os.getcwd()
+    try:
+        for hi in range(n):
+            root = os.path.join(tmp, "h%d" % hi)
+            os.makedirs(root)
+            os.chdir(root)
+            k = rng.randint(2, 4)
+            mains = []
+            for i in range(k):
+                d = "p%d" % i
+                os.makedirs(d)
+                lim = rng.randint(2, 99)
+                style = rng.choice(["define", "ifndef", "plain", "once"])
+                with open(os.path.join(d, "defaults.h"), "w") as fp:
+                    if style == "define":
+                        fp.write("#define LIMIT %d\n" % lim)
+                    elif style == "ifndef":
+                        fp.write("#ifndef LIMIT\n#define LIMIT %d\n#endif\n" % lim)
+                    elif style == "once":
+                        fp.write("#pragma once\n#define LIMIT %d\n" % lim)
+                    else:
+                        fp.write("// nothing\n")
+                with open(os.path.join(d, "m%d.h" % i), "w") as fp:
+                    fp.write("#pragma once\n" if rng.random() < 0.5 else "")
+                    fp.write('#include "defaults.h"\n')
+                    fp.write(rng.choice(["int LIMIT;\n", "int b%d = LIMIT;\n" % i, "#ifdef LIMIT\nint has_limit%d;\n#else\nint no_limit%d;\n#endif\n" % (i, i)]))
+                mains.append(os.path.join(d, "m%d.h" % i))
+            seq = mains + [rng.choice(mains)]
+            for backend in (["pcpp", "gcc"] if have_gcc else ["pcpp"]):
+                mk = (lambda: PP.make_pcpp_preprocessor()) if backend == "pcpp" else (lambda: PP.make_gcc_preprocessor(print_cmd=False))
+                shared = mk()
+                for m in seq:
+                    ctx.count((hi, backend, m), nontrivial=True)
+                    try:
+                        want = parse_file(m, options=ParserOptions(preprocessor=mk()))
+                    except Exception as e:  # noqa
+                        want = "error %s" % type(e).__name__
+                    try:
+                        got = parse_file(m, options=ParserOptions(preprocessor=shared))
+                    except Exception as e:  # noqa
+                        got = "error %s" % type(e).__name__
+                    if got != want:
+                        fails.append({"input": {"sequence": seq, "file": m, "backend": backend, "files": {x: open(x).read() for x in mains}},
+                                      "diff": "with a preprocessor function already used for earlier files the result differs from a fresh one"})
+                        break
+            os.chdir(cwd)
+            shutil.rmtree(root, ignore_errors=True)
+    finally:
+        os.chdir(cwd)
+        shutil.rmtree(tmp, ignore_errors=True)
+    ctx.oracle("preprocessor_history", n, fails)
+
+
 def run(ctx):
     rng = ctx.rng("graphs")
     fails = []
@@ -118,7 +179,9 @@ def run(ctx):
                                 return cb
                         from cxxheaderparser.parser import CxxParser
                         CxxParser(mpath, None, V(), ParserOptions(preprocessor=pp)).parse()
-                        if locs and locs[0][1] != want_line:
+                        if not locs:
+                            fails.append({"input": {"main": mpath, "includes": inc, "backend": backend}, "diff": "second use of the same preprocessor function on the same file reports no declaration"})
+                        elif locs[0][1] != want_line:
                             fails.append({"input": {"main": mpath, "includes": inc, "backend": backend}, "diff": "main declaration reported at line %s, written on line %s" % (locs[0][1], want_line)})
                         dall = parse_file(mpath, options=ParserOptions(preprocessor=ppall))
                         # a file reached twice without an include guard appears twice: compare as sets
@@ -155,6 +218,7 @@ def run(ctx):
         os.chdir(cwd)
         shutil.rmtree(tmp, ignore_errors=True)
     ctx.oracle("include_graphs", n, fails)
+    history_oracle(ctx, rng, have_gcc)
     ctx.sample({"names_pool": NAMES[:6], "backends": ["pcpp"] + (["gcc"] if have_gcc else [])})
     # filter correspondence on synthetic segmented outputs + real gcc outputs
     synth = []
